@@ -337,7 +337,7 @@ func (fr *frame) visitInstr(instr ssa.Instruction) continuation {
 		if p == nil {
 			i.targetPanicStr("runtime error: invalid memory address or nil pointer dereference")
 		}
-		*p = copyVal(fr.get(instr.Val))
+		storeInPlace(p, fr.get(instr.Val))
 	case *ssa.If:
 		cv := fr.get(instr.Cond)
 		ct, ok := cv.(*smt.Term)
@@ -508,6 +508,29 @@ func (fr *frame) visitInstr(instr ssa.Instruction) continuation {
 		panic(fmt.Sprintf("unexpected instruction: %T", instr))
 	}
 	return kNext
+}
+
+// storeInPlace assigns v to the cell at p. Aggregates are stored element-wise
+// so that pointers into the old aggregate (&x.f taken before x = T{...}) stay
+// valid, as they do in real memory.
+func storeInPlace(p *value, v value) {
+	switch nv := v.(type) {
+	case structure:
+		if old, ok := (*p).(structure); ok && len(old) == len(nv) {
+			for k := range nv {
+				storeInPlace(&old[k], nv[k])
+			}
+			return
+		}
+	case array:
+		if old, ok := (*p).(array); ok && len(old) == len(nv) {
+			for k := range nv {
+				storeInPlace(&old[k], nv[k])
+			}
+			return
+		}
+	}
+	*p = copyVal(v)
 }
 
 func (i *Interp) allocSize(v value, site string) int {
@@ -1084,7 +1107,9 @@ func (i *Interp) callBuiltin(caller *frame, fn *ssa.Builtin, args []value) value
 			for k := 0; k < n; k++ {
 				tmp[k] = copyVal(src[k])
 			}
-			copy(dst, tmp)
+			for k := 0; k < n; k++ {
+				storeInPlace(&dst[k], tmp[k])
+			}
 		case Str:
 			if src.opaque {
 				i.abort(stInconclusive, "copy from opaque string")
